@@ -27,9 +27,13 @@ def mqTrace (M W : Nat) : Tok → List (Nat × Nat) → List String
   | k, [] => [s!"n={k.n};mx={k.mx}"]
   | k, (t, f) :: rest =>
     let (k', o) := mqOffer M W k t (f = 1)
+    -- distance of the topped-up level from the drop threshold (units; 1 token = W * 10^9):
+    -- the harness does not compare float and exact arithmetic on the knife edge
+    let n1 := min (k.n + (((t - k.stamp : Nat) : Int)) * (M : Int)) k.mx
+    let margin := n1 - (tokUnit W - (M : Int) * (nano : Int))
     (match o with
-      | .dropped => "D"
-      | .written u => s!"W{u / M}") :: mqTrace M W k' rest
+      | .dropped => s!"D:{margin}"
+      | .written u => s!"W{u / M}:{margin}") :: mqTrace M W k' rest
 
 def natList (xs : List Nat) : String := ",".intercalate (xs.map toString)
 
